@@ -269,7 +269,7 @@ prop(
     technique="runtime monitoring: tagged request/response histories on the real server and real sockets; per-client attribution of every received byte by an independent response reader",
     design_ref="DESIGN.md §3 C07",
     engine="server-simulator",
-    rule="Bounded-exhaustive: every sequence of enabled actions up to depth 7 (quick, 2 clients) / 9 (thorough, 3 clients) over "
+    rule="Bounded-exhaustive: every sequence of enabled actions up to depth 7 (quick, 2 clients) / 9 (thorough, 2 clients) and 7 (thorough, 3 clients) over "
          "{connect (incl. reconnect), send whole/first part/rest/two pipelined, close, shutdown RD/WR, drain, poll (only when the "
          "epoll fd is ready), respond to any outstanding request}; every prefix is executed from a fresh server and judged. Random: "
          "histories of 20-90 actions with 4 clients biased to close-with-requests-in-flight -> reconnect -> late answer. Each "
@@ -289,9 +289,9 @@ prop(
     technique="runtime monitoring: exactly-once yield, bounded-progress settle loop gated on epoll readiness, no-spin at quiescence and flush delivery, over histories of the real server with real sockets",
     design_ref="DESIGN.md §3 C08",
     engine="server-simulator",
-    rule="Bounded-exhaustive: every sequence of enabled actions up to depth 9 (quick) / 11 (thorough) for 2 clients over {connect, "
+    rule="Bounded-exhaustive: every sequence of enabled actions up to depth 9 (quick) / 12 (thorough) for 2 clients over {connect, "
          "send whole GET / first part / rest / two pipelined / Expect headers then body, drain, poll (only when ready), respond to "
-         "any outstanding request, respond to all newest-first}, and depth 8/10 with PUT bodies and flush_outgoing_writes in the "
+         "any outstanding request, respond to all newest-first}, and depth 8/11 with PUT bodies and flush_outgoing_writes in the "
          "alphabet; random histories of 20-120 actions with up to 4 clients, 5000-byte request bodies and responses up to 1 MiB, "
          "with and without a registered kill switch, some servers bound to a path. Every history ends with the settle loop, the "
          "completeness check, the no-spin check, then completion of partially sent requests and a second settle. evaluations = "
@@ -355,8 +355,8 @@ prop(
     technique="runtime monitoring: kill switch signalled at the end of every explored history prefix, then five gated polling calls must each report shutdown; with/without differential for an unsignalled switch",
     design_ref="DESIGN.md §3 C18",
     engine="server-simulator",
-    rule="Bounded-exhaustive: every sequence of enabled actions up to depth 7 (quick) / 9 (thorough) with well-behaved clients and "
-         "depth 6/8 with closing / half-closing clients; every node of the search (= every prefix of every history) ends with "
+    rule="Bounded-exhaustive: every sequence of enabled actions up to depth 8 (quick) / 10 (thorough) with well-behaved clients and "
+         "depth 7/9 with closing / half-closing clients; every node of the search (= every prefix of every history) ends with "
          "signal + 5 polls. Random histories of 1-60 actions with 4 clients. Full-batch histories: 8-10 connections that are "
          "permanently ready (closed or half-closed while answers are owed), unsent 1 MiB output, unanswered requests, 0-3 further "
          "clients waiting on the listener, then the signal. Differential: random action lists executed with and without a "
@@ -366,7 +366,7 @@ prop(
     floors={"any": {"shutdown_indications_observed": 20000, "signalled_at_capacity": 1000, "signalled_at_capacity_with_a_client_waiting": 500,
                     "signalled_with_unsent_output": 500, "signalled_with_unanswered_requests": 2000,
                     "signalled_with_partially_received_request": 1000, "signalled_while_idle_without_connections": 500,
-                    "differential_pairs": 500, "max_descriptors_in_epoll_set_when_signalled": 12}},
+                    "differential_pairs": 500, "differential_pairs_at_capacity": 200, "max_descriptors_in_epoll_set_when_signalled": 12}},
 )
 
 prop(
@@ -388,3 +388,15 @@ prop(
     floors={"any": {"descriptors_passed": 20000, "reads_completing_several_requests": 1000, "reads_completing_no_request": 1000,
                     "eof_reads_carrying_descriptors": 200, "sendmsg_with_descriptors": 1000, "descriptors_left_with_the_connection": 200}},
 )
+
+
+# ---- thorough-tier tool stages for the descriptor properties (optional: skipped with a note if the tool cannot run)
+_FD_TOOL_STAGES = [
+    {"flavor": "native", "shards": 16, "scale": 100},
+    {"flavor": "strace", "binary_flavor": "native", "needs_tool": "strace", "shards": 4, "scale": 4, "optional": True, "timeout": 1800,
+     "wrapper": ["strace", "-f", "-qq", "-o", "{log}", "-e", "trace=close,recvmsg,accept4"], "post": "strace_fd_lifecycle"},
+    {"flavor": "valgrind", "binary_flavor": "native", "needs_tool": "valgrind", "shards": 2, "scale": 1, "optional": True, "timeout": 1800,
+     "wrapper": ["valgrind", "--track-fds=yes", "--error-exitcode=0", "--log-file={log}"], "post": "valgrind_track_fds"},
+]
+PROPS["C12"]["stages"] = {"thorough": _FD_TOOL_STAGES}
+PROPS["C10"]["stages"] = {"thorough": _FD_TOOL_STAGES}
